@@ -100,3 +100,9 @@ Example C52_ex_preflight :
   preflight_handler [(true, mkRule [bs "%origin"] false [] [bs "PUT"; bs "GET"] [] (Some 600))] ex_pre =
   Some (mkHdrs [bs "Origin"] [bs "http://a.example"] [] [bs "PUT,GET"] [] [bs "600"] []).
 Proof. exact ex_preflight. Qed.
+
+(* A generated corpus case (prevary-two) satisfies the well-formedness predicate of C52_prop_of_model. *)
+Example C52_wf_example : wf_C52 w_corpus = true /\ kf_C52 w_corpus = 0 /\ prop_C52 w_corpus (run_C52 w_corpus) = true
+  /\ run_C52 w_corpus = VL [VZ 0; VL [vLB [bs "Accept-Encoding"; bs "Cookie"; bs "Origin"]; vLB [bs "http://a"];
+                                     vLB [bs "true"]; vLB []; vLB []; vLB []; vLB []]].
+Proof. exact wf_corpus_example. Qed.
